@@ -52,7 +52,7 @@ PROPS = {
         "rule": GEN_TA + "downward simulation on arbitrary automata, upward simulation on reference-trimmed automata, states renumbered 0..n-1 through a generated permutation, "
                 "n passed as NumStates; every pair (q,r) compared with the naive greatest fixpoint of the definition. Non-trivial: the reference relation is neither the identity "
                 "nor total. Distinct: hash of the case text.",
-        "assumptions": COMMON_ASSUMPTIONS + ["upward simulation is only requested for trimmed automata (stated precondition); the empty automaton is not exercised"],
+        "assumptions": COMMON_ASSUMPTIONS + ["upward simulation is only requested for trimmed automata (stated precondition); the empty automaton is exercised with NumStates = 0 only"],
     },
     "C05": {
         "harness": "c05",
